@@ -516,7 +516,10 @@ def check_builder_setters(F, R, adt, inst="builder-setter", skip=r"^(new|default
                 ok, why = True, ""
                 for v in changed[ci]:
                     callee = re.sub(r"<[^<>]*(<[^<>]*(<[^<>]*>[^<>]*)*>[^<>]*)*>", "", v[1]).replace("::::", "::").rsplit("::", 1)[-1] if v[0] == "call" else None
-                    old_used = v[0] == "call" and any(D.mentions(a, lambda y: y == ("field", ("arg", 1), ci) or (y[0] == "ref" and y[1] == ("field", ("L", 0, 1), ci))) for a in v[2])
+                    # (the old value: `self.<field>` — of this method or of an own private helper the method was inlined into, whose first
+                    # parameter is that `self`)
+                    is_old = lambda y: isinstance(y, tuple) and len(y) == 3 and y[0] == "field" and y[2] == ci and (y[1] == ("arg", 1) or (isinstance(y[1], tuple) and y[1][0] == "L" and y[1][2] == 1))
+                    old_used = v[0] == "call" and any(D.mentions(a, is_old) for a in v[2])
                     missing = [D.fmt(b, q) for q in params if not D.mentions(v, lambda y, q=q: y == q)]
                     if callee != name or not old_used or missing:
                         ok, why = False, f"`{fields[ci]}` becomes {D.fmt(b, v)[:70]}"
